@@ -197,6 +197,23 @@ def run(ctx: Ctx) -> None:
             if is_link and a != b and "\n" not in title and not dest.endswith("\\"):
                 ctx.fail("ref!=inline", "a reference link/image differs from the inline form with the same text, destination and title",
                          {"input": ref, "inline": inl, "inline_html": a, "reference_html": b})
+    # ---- long link texts / image descriptions: the reference form has no size limit the inline form lacks (a label may be limited,
+    # the text in front of it is not a label)
+    for nlen in (998, 999, 1000, 1001, 1500, 4000):
+        for text in ("x" * nlen, ("word " * (nlen // 5 + 1))[:nlen].rstrip() + "!", "*e* " + "y" * nlen):
+            for bang in ("", "!"):
+                inl = "%s[%s](/u \"T\")\n" % (bang, text)
+                ref = "%s[%s][r]\n\n[r]: /u \"T\"\n" % (bang, text)
+                seeded = "%s[%s][r]\n" % (bang, text)
+                ctx.count(("long-text", nlen, bang, text[:3]), nontrivial=True)
+                try:
+                    a, b = md.render(inl), md.render(ref)
+                    c = md.render(seeded, {"references": {"R": {"href": "/u", "title": "T"}}})
+                except Exception:
+                    continue
+                if a != b or a != c:
+                    ctx.fail("ref!=inline", "a reference link/image with a long text differs from the inline form with the same text, destination and title",
+                             {"input": ref, "inline": inl, "inline_html": a[:200], "reference_html": b[:200], "seeded_html": c[:200], "text_length": len(text)})
     # ---- a title candidate that is rejected must leave no trace: the definition is the destination alone (when the candidate
     # stands on a later line) or no definition at all (when it stands on the destination's line); decided by the grammar,
     # compared with the inline form without a title
